@@ -19,7 +19,11 @@ Inductive case :=
          (sha_tbl : list (bytes * bytes))               (* crypto/sha256 of every name involved *)
          (ps_tbl : list (bytes * (bytes * bool)))       (* publicsuffix.PublicSuffix of every host *)
          (db : list bytes)                              (* the TXT strings the scripted service holds *)
-         (ops : list cop).
+         (ops : list cop)
+  (* one check through DNSFilter.CheckHost on a fresh Checker: the name as
+     spelled in the request; observed: question sent, blocked *)
+  | CaseVia (suffix : bytes) (sha_tbl : list (bytes * bytes)) (ps_tbl : list (bytes * (bytes * bool)))
+            (db : list bytes) (spelled : bytes) (obs_q : option bytes) (obs_blocked : bool).
 
 Definition lookup {V} (tbl : list (bytes * V)) (k : bytes) : option V :=
   match find (fun e => eqb_bytes (fst e) k) tbl with Some e => Some (snd e) | None => None end.
@@ -72,8 +76,13 @@ Definition step_ok (sha_tbl : list (bytes * bytes)) (ps_tbl : list (bytes * (byt
   end.
 
 Definition model_run (c : case) :=
-  let '(Case suffix ct sha_tbl ps_tbl db ops) := c in
-  run (sha_of sha_tbl) (ps_of ps_tbl) suffix (ct * ns_sec) (map (to_op db) ops) (0, []).
+  match c with
+  | Case suffix ct sha_tbl ps_tbl db ops =>
+      run (sha_of sha_tbl) (ps_of ps_tbl) suffix (ct * ns_sec) (map (to_op db) ops) (0, [])
+  | CaseVia suffix sha_tbl ps_tbl db spelled _ _ =>
+      [((0, []), Some (snd (check_host (sha_of sha_tbl) (ps_of ps_tbl) suffix (3600 * ns_sec)
+                                       (raw_service db false) [] [] 0 spelled [])))]
+  end.
 
 Fixpoint all2 {A B} (f : A -> B -> bool) (a : list A) (b : list B) : bool :=
   match a, b with
@@ -83,8 +92,17 @@ Fixpoint all2 {A B} (f : A -> B -> bool) (a : list A) (b : list B) : bool :=
   end.
 
 Definition case_ok (c : case) : bool :=
-  let '(Case suffix ct sha_tbl ps_tbl db ops) := c in
-  all2 (step_ok sha_tbl ps_tbl) ops (model_run c).
+  match c with
+  | Case suffix ct sha_tbl ps_tbl db ops => all2 (step_ok sha_tbl ps_tbl) ops (model_run c)
+  | CaseVia suffix sha_tbl ps_tbl db spelled q b =>
+      let name := caller_name spelled in
+      let out := snd (check_host (sha_of sha_tbl) (ps_of ps_tbl) suffix (3600 * ns_sec)
+                                 (raw_service db false) [] [] 0 spelled []) in
+      forallb (fun n => match lookup sha_tbl n with Some _ => true | None => false end)
+              (names_to_hash (ps_of ps_tbl) name) &&
+      match lookup ps_tbl name with Some _ => true | None => false end &&
+      Bool.eqb (o_blocked out) b && negb (o_err out) && eqb_option eqb_bytes (o_question out) q
+  end.
 
 Definition mismatches := Base.Run.mismatches case_ok.
 
